@@ -725,7 +725,10 @@ class FlattenedEncoding(LazyIndexMap):
 
     def _from_base_indices(self, base_indices):
         return np.expand_dims(
-            np.ravel_multi_index(base_indices.T, self._data.shape), axis=-1
+            np.ravel_multi_index(
+                np.reshape(base_indices, (-1, self._data.ndims)).T, self._data.shape
+            ),
+            axis=-1,
         )
 
     @property
